@@ -77,15 +77,15 @@ def cases(tier, seed):
     for src, (nq, nt) in HARVEST_SOURCES.items():
         for k in range(nt if th else nq):
             yield {"kind": "harvest", "src": src, "k": k}
-    for k in range(240 if th else 32):
+    for k in range(1000 if th else 32):
         yield {"kind": "trees", "k": k, "n": 120 if th else 60}
-    for k in range(192 if th else 32):
+    for k in range(800 if th else 32):
         yield {"kind": "formats", "k": k, "n": 40 if th else 14}
-    for k in range(64 if th else 8):
+    for k in range(256 if th else 8):
         yield {"kind": "foreign", "k": k, "n": 40 if th else 16}
-    for k in range(64 if th else 8):
+    for k in range(256 if th else 8):
         yield {"kind": "api", "k": k, "n": 120 if th else 50}
-    for k in range(48 if th else 8):
+    for k in range(150 if th else 8):
         yield {"kind": "cli", "k": k, "n": 30 if th else 10}
 
 
